@@ -175,6 +175,9 @@ def shape_of(doc):
     return " ".join(parts)
 
 
+_HELD = {}
+
+
 def compare(doc, uri, next_free, prop, M, case, compiler=None):
     """Compile `doc` (ids already assigned, next free id known) with the real compiler and
     with R4; report differences of the field group of `prop`; others are advisory.
@@ -196,6 +199,15 @@ def compare(doc, uri, next_free, prop, M, case, compiler=None):
         M.violation(prop + ".crash", {"what": "exception escaped Compiler.compile", "type": type(e).__name__,
                                       "repr": repr(e)[:160], "origin": origin}, case, mechanism=mech)
         return None
+    if compiler is not None:
+        # a pickle list returned by an earlier compile() on the same Compiler must not change when the next document is compiled
+        prev = _HELD.get(id(compiler))
+        if prev is not None and prev[0] is compiler:
+            M.count("retained_pickle_lists_rechecked")
+            if prev[1] != prev[2]:
+                M.violation(prop + ".retained", {"what": "the pickle list returned by an earlier compile() on the same Compiler changed when a later document was compiled",
+                                                 "earlier_len": len(prev[2]), "now_len": len(prev[1]) if isinstance(prev[1], list) else None}, case)
+        _HELD[id(compiler)] = (compiler, got, copy.deepcopy(got))
     if doc != before:
         if prop in ("C08", "C07"):
             M.violation(prop + ".mutated", {"what": "compile modified the document it was given"}, case)
@@ -291,3 +303,51 @@ def parsed_doc(seed, family, i, M, **kw):
         return None
     M.count("documents_parsed")
     return o.ast, int(o.idgen.get_next_id()), R.text
+
+
+def stream_pickles_agree(text, prop, M, case):
+    """The pickles a consumer gets from the stream, under every combination of the print options that has pickles on, are the
+    pickles Compiler.compile returns for the parsed document (fresh objects each time, so the ids agree as well)."""
+    from gherkin.parser import Parser
+    from gherkin.ast_builder import AstBuilder
+    from gherkin.stream.id_generator import IdGenerator
+    idg = IdGenerator()
+    try:
+        doc = Parser(AstBuilder(idg)).parse(text)
+    except Exception:
+        return
+    doc = dict(doc)
+    doc["uri"] = "features/x.feature"
+    want = Compiler(idg).compile(doc)
+    for opts in ((True, True, True), (False, True, True), (True, False, True), (False, False, True)):
+        st, envs, opened, _ = observe.enum_observed(text, uri="features/x.feature", options=opts)
+        M.count("stream_option_runs")
+        if st != "ok":
+            M.violation(prop + ".stream", {"what": "exception escaped GherkinEvents.enum", "options": opts, **envs}, case,
+                        mechanism=observe.f1_from_opened(text, opened))
+            continue
+        got = [e["pickle"] for e in envs if "pickle" in e]
+        M.count("stream_pickles_compared", len(want))
+        if got != want:
+            M.violation(prop + ".stream", {"what": "pickles yielded by the stream differ from Compiler.compile on the parsed document",
+                                           "options": opts, "got_n": len(got), "want_n": len(want)}, case)
+
+
+def childless_without_uri(prop, M):
+    """Documents the parser returns for empty, comment-only and childless sources carry no uri (the stream layer adds it):
+    compiling them as they are yields no pickles."""
+    from gherkin.parser import Parser
+    for text in ("", "# only a comment\n", "\n\n", "Feature: f\n", "@t\nFeature: f\n  description\n", "# language: fr\nFonctionnalité: f\n"):
+        doc = Parser().parse(text)
+        case = {"kind": "childless", "text": text}
+        M.count("childless_documents_compiled")
+        for comp in (Compiler(), Compiler(generator_at(5))):
+            try:
+                res = comp.compile(doc)
+            except Exception as e:
+                M.violation(prop + ".crash", {"what": "exception escaped Compiler.compile for a document without scenarios (as returned by the parser, no uri)",
+                                              "type": type(e).__name__, "repr": repr(e)[:160], "text": text}, case)
+                break
+            if res != []:
+                M.violation(prop + ".pickles", {"what": "a document without scenarios compiled to pickles", "text": text, "n": len(res)}, case)
+                break
